@@ -54,8 +54,15 @@ pub fn run(seed: u64, tier: &str, out: &mut Out) {
 pub fn run_threads(seed: u64, tier: &str, out: &mut Out) {
     let mut rng = Rng::new(seed ^ 0x7777);
     let rounds = if tier == "thorough" { 200 } else { 12 };
-    for _ in 0..rounds {
-        let nthreads = *rng.pick(&[2usize, 3, 4, 8, 16]);
+    // every reading of the clock moves it: threads see different instants, in an order unrelated to their stores
+    for round in 0..rounds {
+        // (little per reading, or more than the 1 ms interval of the position gate, so that every call re-arms it)
+        indicatif::verif_hooks::set_auto_advance_ns(if round % 2 == 0 { 997 } else { 1_000_003 });
+        // in a third of the rounds some readings of the clock are followed by a short sleep: another thread's whole update fits between
+        // this thread's reading of the clock and its next atomic access
+        indicatif::verif_hooks::set_stall_every(if round % 3 == 1 { 501 } else { 0 });
+        // more threads than cores in some rounds: preemption at arbitrary points between two atomic accesses
+        let nthreads = *rng.pick(&[2usize, 3, 4, 8, 16, 48, 96]);
         let per = *rng.pick(&[20_000u64, 50_000, 100_000]);
         let start = *rng.pick(&[0u64, 5, u64::MAX - 1000, 1 << 63]);
         let len = *rng.pick(&[None, Some(0u64), Some(1000), Some(u64::MAX)]);
@@ -68,13 +75,14 @@ pub fn run_threads(seed: u64, tier: &str, out: &mut Out) {
         let handles: Vec<_> = plans.iter().map(|&(i, d)| { let b = pb.clone(); let bf = bad_fraction.clone(); std::thread::spawn(move || {
             for k in 0..per { b.inc(i); if d > 0 { b.dec(d); } if k % 4096 == 0 { let mut f = -1.0f32; b.update(|s| f = s.fraction()); if !(0.0..=1.0).contains(&f) { bf.store(true, std::sync::atomic::Ordering::Relaxed); } } }
         }) }).collect();
-        for h in handles { h.join().unwrap(); }
+        let panicked = handles.into_iter().map(|h| h.join()).filter(|r| r.is_err()).count();
         let mut want = start;
         for &(i, d) in &plans { want = want.wrapping_add(i.wrapping_mul(per)).wrapping_sub(d.wrapping_mul(per)); }
         let got = pb.position();
-        let verdict = if got != want { format!("FAIL lost-updates {nthreads} threads x {per} calls: position {got}, expected {want} (start {start})") }
+        let verdict = if panicked > 0 { format!("FAIL panic-under-concurrency {panicked} of {nthreads} threads panicked in inc/dec") } else if got != want { format!("FAIL lost-updates {nthreads} threads x {per} calls: position {got}, expected {want} (start {start})") }
             else if bad_fraction.load(std::sync::atomic::Ordering::Relaxed) { "FAIL fraction-out-of-range during concurrent updates".to_string() } else { "ok".into() };
         std::mem::forget(pb);
         out.emit(&format!("NOMODEL THREADS n={nthreads} per={per} start={start} len={len:?} hidden={hidden} plans={plans:?}"), &format!(" ORACLE {verdict}"));
     }
+    indicatif::verif_hooks::set_auto_advance_ns(0); indicatif::verif_hooks::set_stall_every(0);
 }
